@@ -1,4 +1,5 @@
 from collections.abc import Sequence
+from math import prod
 
 from xdsl.dialects import arith, builtin, linalg, memref
 from xdsl.dialects.builtin import i64
@@ -149,7 +150,10 @@ class SNAXAluAccelerator(SNAXAccelerator, SNAXPollingBarrier3, SNAXStreamer, Dis
         self, op: snax_stream.StreamingRegionOp
     ) -> Sequence[tuple[Sequence[Operation], SSAValue]]:
         c0 = arith.ConstantOp.from_int_and_width(0, 32)
-        loop_bound = arith.ConstantOp.from_int_and_width(op.stride_patterns.data[0].upper_bounds.data[0], 32)
+        # the accelerator runs once per temporal step of the streams: all loops of the pattern, not only the innermost
+        loop_bound = arith.ConstantOp.from_int_and_width(
+            prod(x.data for x in op.stride_patterns.data[0].upper_bounds), 32
+        )
 
         return [
             *self._generate_streamer_setup_vals(op),
